@@ -195,15 +195,18 @@ PROPS = {
                    "denoting the same function are identical, and every function has a reduced diagram "
                    "(multi-terminal forests). Tie: the same function built along several API paths must be == "
                    "in the library and have the model's canonical dump.",
-        level_note=_MODELLED + "EV+/EV* canonicity and the unique-table/hash mechanism are tied by "
-                   "correspondence only (partial)."),
+        level_note=_MODELLED + "EV+ canonicity is proved for set forests and fully-/quasi-reduced relation "
+                   "forests (EvP.ev_canon) and tied by canonical dumps; identity-reduced EV+ relations and EV* "
+                   "are compared at table level only; the unique-table/hash mechanism is tied by the audit "
+                   "(AuditP.audited_store_canonical) and by correspondence."),
     "C03": dict(
         gens=[("build", gen.gen_C03, 1.0)], quick=60, thorough=600,
         level_text="Proved: the recursive minterm builder evaluates to the max/min-of-matching-minterms "
                    "specification at every assignment, for every collection, rule and domain, and returns a "
                    "reduced diagram. Tie: tables and canonical dumps of the library's builders vs the model.",
-        level_note=_MODELLED + "Builder shortcuts of minterms.cc are not mirrored; EV+/EV* collections are "
-                   "compared at table level only."),
+        level_note=_MODELLED + "Builder shortcuts of minterms.cc are not mirrored; EV+ collections are "
+                   "compared by table and by the canonical EV+ diagram of the table (EvDD.ev_of_fun, proved to "
+                   "evaluate to the table and to be the unique reduced edge); EV* at table level only."),
     "C04": dict(
         gens=[("setalg", gen.gen_C04, 0.6), ("cross", gen.gen_C04_cross, 0.3),
               ("reuse-set", lambda r: gen.gen_reuse(r, "set"), 0.3),
@@ -219,14 +222,17 @@ PROPS = {
         level_text="Proved: element-wise binary/unary operations are pointwise for an arbitrary scalar function "
                    "(instantiated with the catalogue in Model/Scalar.v). Tie: tables+dumps for "
                    "plus/minus/mult/max/min/distmin/comparisons on integer and real MT forests.",
-        level_note=_MODELLED + "IEEE rounding not modelled: real values are exact multiples of 1/2. EV+/EV* "
-                   "arithmetic compared at table level."),
+        level_note=_MODELLED + "IEEE rounding not modelled: real values are exact multiples of 1/2. EV+ "
+                   "arithmetic/comparisons (Scalar.ev_scalar2, ev_compare, ev_undefined: +infinity and the three "
+                   "documented errors) are applied to tables and the result is compared by table and canonical "
+                   "EV+ diagram; EV* not covered."),
     "C10": dict(
         gens=[("copy", gen.gen_C10, 0.8), ("copy-ev", gen.gen_C10_ev, 0.5)], quick=60, thorough=600,
         level_text="Proved: copy is the pointwise scalar conversion and copy-there-and-back is the identity "
                    "when the conversion is invertible on the values taken (via canonicity). Tie: every ordered "
                    "pair of MT forest kinds over the same domain.",
-        level_note=_MODELLED + "EV targets/sources tied at table level only."),
+        level_note=_MODELLED + "EV+ sources/targets: conversion applied to tables (Scalar.conv_to_ev / "
+                   "conv_from_ev), result compared by table and canonical diagram; EV* not covered."),
 }
 
 PROPS["C19"] = dict(
